@@ -3,7 +3,7 @@
    in that order and with the generated names, and gives the first segment of every new group below a branch point
    an explicit proximal point.  Induction over the rose tree (any depth, any branching). *)
 From Coq Require Import List ZArith QArith Bool Lia Permutation String.
-From LNML Require Import Model.Morph Model.Section Proofs.MorphP Proofs.MorphP1 Proofs.MorphP2 Proofs.SectionP Proofs.SectionP2.
+From LNML Require Import Model.Morph Model.Section Proofs.MorphP Proofs.MorphP1 Proofs.MorphP2 Proofs.MorphP6 Proofs.SectionP Proofs.SectionP2.
 Import ListNotations.
 Open Scope Z_scope.
 
@@ -542,4 +542,38 @@ Proof.
     { rewrite <- (gmembers_name_groups (Z.of_nat (List.length gs)) 0 (sect_tree t [])). now apply in_map. }
     rewrite (sect_tree_split t) in Hm. destruct Hm as [Hm|Hm]; [|now apply Hrest].
     exfalso. apply Hne. rewrite <- Hm. apply first_chain_hd.
+Qed.
+
+(* ------------------------------------------------------------------ the hypotheses are decidable *)
+Lemma nodup_strb_sound : forall l, nodup_strb l = true -> NoDup l.
+Proof.
+  induction l as [|x r IH]; intros H; [constructor|]. simpl in H. apply andb_prop in H. destruct H as [H1 H2].
+  constructor; auto. intro Hin. apply negb_true_iff in H1.
+  assert (existsb (String.eqb x) r = true); [|congruence].
+  apply existsb_exists. exists x. split; auto. apply String.eqb_refl.
+Qed.
+
+Lemma build_tree_root : forall fuel a r t, build_tree fuel a r = Some t -> root_id t = r.
+Proof.
+  intros [|k] a r t H; simpl in H; [discriminate|].
+  match type of H with (match ?X with _ => _ end = _) => destruct X end; [|discriminate]. inversion H. reflexivity.
+Qed.
+
+(* hyps_ok (evaluated by the kernel on every generated case) implies every hypothesis of create_branches_correct *)
+Theorem hyps_ok_sound : forall c gs root, hyps_ok c gs root = true ->
+  exists t, root_id t = root /\ wf c /\ all_ok c /\ tree_adjb (adjacency c) t = true /\ NoDup (preorder t) /\
+            incl (preorder t) (ids c) /\
+            NoDup (map gid gs ++ map gid (name_groups (Z.of_nat (List.length gs)) 0 (sect_tree t []))).
+Proof.
+  intros c gs root H. unfold hyps_ok in H. destruct (build_tree (fuel_of c) (adjacency c) root) as [t|] eqn:Eb; [|discriminate].
+  apply andb_prop in H. destruct H as [H Hnames]. apply andb_prop in H. destruct H as [H Hincl].
+  apply andb_prop in H. destruct H as [H Hnd]. apply andb_prop in H. destruct H as [H Hadj].
+  apply andb_prop in H. destruct H as [Hwfb Hrhp].
+  exists t. split; [eapply build_tree_root; eauto|].
+  assert (Hwf : wf c) by now apply wfb_sound.
+  split; [exact Hwf|]. split; [apply wf_all_ok; auto; now apply root_has_proxb_sound|].
+  split; [exact Hadj|]. split.
+  - apply Zlist_eqb_eq in Hnd. rewrite <- Hnd. apply dedup_nodup.
+  - split; [|now apply nodup_strb_sound].
+    intros x Hx. rewrite forallb_forall in Hincl. specialize (Hincl x Hx). now apply memZ_spec.
 Qed.
